@@ -87,6 +87,26 @@ def g_offset(p_points):
     return l_moved, l_moved, D, a, b
 g_total = g_scale([1]) + g_offset([2]) + g_scale([3])
 ''',
+    'class bodies that read enclosing names directly and bind attributes named like generated names': '''
+g_base = 10
+def g_palette(p_scale, p_labels):
+    l_shift = p_scale + 1
+    class g_Palette:
+        A = 1
+        B = 2
+        C = 3
+        c_red = p_scale * 3 + l_shift
+        c_upper = [c_l.upper() for c_l in p_labels]
+        c_width = len(p_labels) + A + l_shift
+        def m_get(self, m_k):
+            return p_scale, m_k, m_k, l_shift
+    return g_Palette, p_scale, p_labels, l_shift, l_shift
+class g_Config:
+    F = 4
+    D = g_base * 2
+    E = [g_base for c_i in range(D)]
+g_again = g_base + g_base + g_base
+''',
     'builtins used often (aliased at module level), a literal __all__': '''
 __all__ = ['g_api', 'g_other_api']
 def g_api(p_items):
